@@ -313,8 +313,9 @@ def run_case(case, ctx):
                 sel = (op.get("ds", 0), op.get("sc", 0))
                 shared.consensuses.append((raw1,) + sel if k1 == "returned" else None)
                 fresh.consensuses.append((raw2,) + sel if k2 == "returned" else None)
-                if k1 != "returned" or k2 != "returned":
-                    # keep the two lists aligned: a read only makes sense when both worlds have the object
+                if k1 != "returned" or k2 != "returned" or aborted_by_fault:
+                    # keep the two lists aligned: a read only makes sense when both worlds have the object (and
+                    # whatever a run aborted by a peer fault handed out is not an object the statement speaks about)
                     shared.consensuses[-1] = fresh.consensuses[-1] = None
             if kind == "mutate":
                 snap0_ds, snap0_sc = snap_all()
